@@ -48,6 +48,10 @@ def function_table():
             "Mod(a, 2) * 3", "3 * Mod(a, 2)", "-Mod(a, 2)", "b / Mod(a + 0.3, 2)", "Mod(a, 2) / b", "Mod(a, 2) ** 2", "a - Mod(b, 3) * c",
             "-(p * Mod(k, 3))", "(4 - 8) / Mod(t + 0.3, 2)", "Mod(a, 2) + Mod(b, 3)", "Mod(Mod(a * 5, 3), 2)", "Mod(a, 2) - 1",
             "cos(a + (b + (pi + c)))", "sin((a + (pi + b)) + c)", "tan(a / 4 + (b / 8 + (c / 8 + pi)))", "cos(a + (pi + b))", "sin(a - (pi - b))", "cos((a + b) + (c + (k + (pi + p))))", "sin(2 * (pi + a))", "cos(pi + a)", "sin(a + 2 * pi)", "cos(a + (b + (pi / 2 + c)))",
+            # nested sums below a negation / product / power inside a function argument
+            "cos(-(a + (pi + b)))", "sin(-(a + (pi + b)))", "tan(-(a / 4 + (pi + b / 8)))", "cos((a + (pi + b)) * -1)", "cos(-(a + (pi + b)) + c)", "cos(2 * (a + (pi / 2 + b)))", "sin(-2 * (a + (pi / 2 + b)))",
+            "cos(-(-(a + (pi + b))))", "cos((a + (pi + b)) / -1)", "sin(-((a + (pi + b)) + c))", "cos(-(a + (b + (pi + c))))", "exp(-(a + (b + (1.5 + c))))", "cos(-(a - (pi - b)))", "cos(-a - (pi + b))", "cos(-(a + (pi + b)) ** 1)",
+            "cos(c * (a + (pi + b)))", "sin(-(a + (pi + b)) / 2)", "cos(abs(-(a + (pi + b))))", "sin(pi - (a + (pi + b)))",
             "exp(a + (b + (1.5 + c)))", "log(a + (b + (1.5 + c)))", "sqrt(a + (b + (c + 2)))",
             "floor(a * 3) / 2", "floor(-a * 3)", "floor(a) + floor(b)", "a - floor(a)", "floor(a / b)", "abs(a - 2)", "abs(-a) * abs(b - 1)",
             "sqrt(a * a + b * b)", "sqrt(a) * sqrt(b)", "exp(log(a + 1))", "log(exp(a))", "exp(a) * exp(b)", "exp(-a / 6.8)", "exp(2)", "exp(1)", "exp(1) * a",
@@ -137,6 +141,21 @@ def packed_model_intermediates(exprs):
     for i, e in enumerate(exprs):
         lines.append(f"w{i} = {e}")
     return "\n".join(lines) + "\n"
+
+
+RENAME_TOKENS = {"a": "is_true", "b": "falsetto", "c": "powder", "p": "fabs_p", "k": "truename"}
+
+
+def rename(text, mapping):
+    """The same model with its identifiers renamed (whole words only; derivative names follow)."""
+    import re
+
+    if not mapping:
+        return text
+    for old, new in mapping.items():
+        text = re.sub(rf"(?<![\w.]){re.escape(old)}(?![\w(])", new, text)
+        text = re.sub(rf"(?<![\w.])d{re.escape(old)}_dt(?![\w(])", f"d{new}_dt", text)
+    return text
 
 
 def chunks(seq, n):
